@@ -17,6 +17,14 @@
 //!       For Encodable MESSAGE-INTEGRITY / -SHA256 / FINGERPRINT the bytes patched in by `post_encode` are
 //!       compared with an HMAC / CRC computed here and reported as the zeros the value encoder wrote.
 //!
+//! Generation: per round and per kind, constructor inputs with boundary lengths / values (`gen_specs`; when a
+//! constructor refuses a string that a decoder accepts, e.g. a 600-byte USERNAME, the value is obtained by
+//! decoding, so that the encoders' own limits are exercised), every buildable value encoded with rooms
+//! {size+padding, size, size-1, random, 0}; its wire form decoded as is and mutated (truncate, extend, flip, overwrite,
+//! special byte sequences injected into strings); random and structured raw values; unregistered types.
+//! Round 0 adds a seed-independent sweep (`run_systematic`): every kind x every length 0..=36, every ERROR-CODE
+//! class / number byte pair, every error code 300..699, every string kind x boundary length x injected sequence.
+//!
 //! Tokens (the canonical rendering of a value, produced from the decoded `StunAttribute` through its public
 //! accessors): addr:<4|6>:<port>:<ip hex>  u16:<n>  u32:<n>  u64:<16 hex digits>  empty  text:<hex>
 //! quoted:<hex>  user:<hex>  err:<code>:<reason hex>  aerr:<1|2>:<code>:<reason hex>  alg:<id>:<n|s<hex>>
@@ -404,8 +412,9 @@ fn build(ty: u16, tok: &str) -> Option<StunAttribute> {
         },
         "text" => {
             let s = str_of(f[1])?;
+            let raw = s.as_bytes().to_vec();
             match ty {
-                0x8022 => Software::new(s).ok().map(|x| x.into()),
+                0x8022 => Software::new(s).ok().map(|x| x.into()).or_else(|| via_decode(ty, &raw, false)),
                 0x0026 => Padding::new(s).ok().map(|x| x.into()),
                 _ => None,
             }
@@ -419,9 +428,12 @@ fn build(ty: u16, tok: &str) -> Option<StunAttribute> {
                     _ => None,
                 }
             };
-            mk(&s)
+            mk(&s).or_else(|| if s.len() > 509 { via_decode(ty, s.as_bytes(), false) } else { None })
         }
-        "user" => UserName::new(str_of(f[1])?).ok().map(|x| x.into()),
+        "user" => {
+            let s = str_of(f[1])?;
+            UserName::new(&s).ok().map(|x| x.into()).or_else(|| if s.len() >= 509 { via_decode(ty, s.as_bytes(), false) } else { None })
+        }
         "err" => {
             let e = stun_rs::ErrorCode::new(f[1].parse().ok()?, &str_of(f[2])?).ok()?;
             Some(stun_rs::attributes::stun::ErrorCode::from(e).into())
@@ -884,7 +896,17 @@ fn gen_specs(rng: &mut Rng, round: u64, ty: u16, fam: Fam, big: bool) -> Vec<Str
     v
 }
 
-const INJECT: [&[u8]; 40] = [
+const INJECT: [&[u8]; 50] = [
+    b"\\\n",
+    b"\\\r",
+    b"\\\x00",
+    b"\\\x7f",
+    b"\\\t",
+    b"\\ ",
+    b"\\a",
+    b"\\\\",
+    b"\\\xc2\x80",
+    b"\r\n\t",
     b"\"",
     b"\\",
     b" ",
@@ -1099,6 +1121,95 @@ fn run_kind(out: &mut Out, rng: &mut Rng, round: u64, ty: u16, fam: Fam, counts:
     }
 }
 
+/// seed-independent part (round 0): boundary lengths, every length 0..=36 for every kind, every class/number
+/// byte pair, every error code, and the special byte sequences at the start / middle / end of every string kind
+fn run_systematic(out: &mut Out, rng: &mut Rng, counts: &mut [u64; 4]) {
+    let tx = |rng: &mut Rng| -> [u8; 12] { rng.bytes(12).try_into().unwrap() };
+    // every kind, every short length: zeros and random bytes
+    for (ty, _) in KINDS.iter() {
+        for n in 0..=36usize {
+            for v in [vec![0u8; n], rng.bytes(n)] {
+                let t = tx(rng);
+                rec_decode(out, n % 2 == 1, &t, *ty, &v);
+                counts[0] += 1;
+            }
+        }
+    }
+    // ERROR-CODE / ADDRESS-ERROR-CODE: every class byte (low 3 bits and a high bit) x every number byte
+    for cb in [0u8, 1, 2, 3, 4, 5, 6, 7, 0xFB, 0xFE] {
+        for nb in 0..=255u8 {
+            let t = tx(rng);
+            rec_decode(out, false, &t, 0x0009, &[0, 0, cb, nb, b'o', b'k']);
+            counts[0] += 1;
+            if nb % 16 == 3 {
+                let t = tx(rng);
+                rec_decode(out, false, &t, 0x8001, &[(nb >> 4) % 4, 0, cb, nb]);
+                counts[0] += 1;
+            }
+        }
+    }
+    for code in 300..700u16 {
+        if let Some(a) = build(0x0009, &format!("err:{}:{}", code, hex(b"x"))) {
+            let t = tx(rng);
+            rec_encode(out, &t, 0x0009, &a, 5);
+            counts[1] += 1;
+        }
+    }
+    // string kinds: boundary lengths, decoded and (when the constructor accepts) encoded with exact / short room
+    let string_kinds: [(u16, &str, usize); 7] = [
+        (0x8022, "text", 0),
+        (0x0026, "text", 0),
+        (0x0014, "quoted", 0),
+        (0x0015, "quoted", 0),
+        (0x0006, "user", 0),
+        (0x0009, "err", 4),
+        (0x8001, "aerr", 4),
+    ];
+    for (ty, tag, pre) in string_kinds.iter() {
+        for n in STR_LENS.iter() {
+            let body = vec![b'x'; *n];
+            let mut raw = match *pre {
+                0 => vec![],
+                _ => vec![if *ty == 0x8001 { 1 } else { 0 }, 0, 4, 20],
+            };
+            raw.extend_from_slice(&body);
+            let t = tx(rng);
+            rec_decode(out, false, &t, *ty, &raw);
+            counts[0] += 1;
+            let spec = match *tag {
+                "err" => format!("err:420:{}", hex(&body)),
+                "aerr" => format!("aerr:2:420:{}", hex(&body)),
+                _ => format!("{}:{}", tag, hex(&body)),
+            };
+            if let Ok(Some(a)) = guarded(|| build(*ty, &spec)) {
+                for room in [raw.len(), raw.len().saturating_sub(1)] {
+                    let t = tx(rng);
+                    rec_encode(out, &t, *ty, &a, room);
+                    counts[1] += 1;
+                }
+            }
+        }
+        for inj in INJECT.iter() {
+            for shape in 0..4 {
+                let mut raw = match *pre {
+                    0 => vec![],
+                    _ => vec![if *ty == 0x8001 { 2 } else { 0 }, 0, 3, 0],
+                };
+                if shape & 1 == 1 {
+                    raw.extend_from_slice(b"ab");
+                }
+                raw.extend_from_slice(inj);
+                if shape & 2 == 2 {
+                    raw.extend_from_slice(b"yz");
+                }
+                let t = tx(rng);
+                rec_decode(out, false, &t, *ty, &raw);
+                counts[0] += 1;
+            }
+        }
+    }
+}
+
 fn main() {
     let args = Args::parse();
     let mut out = args.writer();
@@ -1139,6 +1250,9 @@ fn main() {
             continue;
         }
         let mut rng = Rng::new(args.seed.wrapping_mul(0x1000_0000_01B3) ^ 0xA77A ^ (round << 20));
+        if round == 0 {
+            run_systematic(&mut out, &mut rng, &mut counts);
+        }
         for (ty, fam) in KINDS.iter() {
             run_kind(&mut out, &mut rng, round, *ty, *fam, &mut counts);
         }
